@@ -256,8 +256,15 @@ CHECKS = {
              "forged pairs for the identity key); every verdict must equal the scheme definition evaluated in TLA+ (FIPS 186-4 6.4, "
              "RFC 8017 8.1.2/9.1.2 and 8.2.2/9.2 with transcribed SHA-256/MGF1, pairing schemes through verified ghost logarithms).",
         ref="§4 C05",
-        note=_NOTE + " Not driven: CL, PS/mPS, vBNN-IBS, PoK/SoK, ring and homomorphic signatures (listed in the evidence under "
-             "not_covered). The hash-to-curve value inside cp_bls_ver is bound from the execution (its correctness is C13).",
+        note=_NOTE + " Second conformance part (drv_sig2 / Sig2Spec, same method): proofs and signatures of knowledge (cp_pokdl, cp_pokor, "
+             "cp_sokdl, cp_sokor), vBNN-IBS, ring signatures (cp_ers, cp_smlers, cp_etrs with the interpolation in the exponent), "
+             "Camenisch-Lysyanskaya A/B/C, Pointcheval-Sanders single/block and two-party forms, multi-key homomorphic signatures "
+             "(cp_mklhs, cp_cmlhs with BLS tags): all 17 verifiers with completeness over message lengths / ring sizes / block lengths / "
+             "signers x labels and the per-component mutation list, each verdict compared with the definition evaluated in TLA+ after "
+             "VERIFYING the logged ghost logarithms (random scalars captured by interposing bn_rand_mod). Not driven: cp_cmlhs with "
+             "ECDSA tags, the *_onv/*_off variants. Hash-to-curve values inside verifiers are bound from the execution (correctness: "
+             "C13); G_T key elements of cp_cmlhs are bound to their exponents. Known finding (keyed): cp_etrs_ver does not enforce "
+             "the interpolation.",
         technique="TLC model checking of signature guards and padding scanners + TLC trace validation of recorded sign/verify calls against TLA+ scheme definitions"),
     "C11": dict(
         text="The affine chord-and-tangent law over a tower level (lib/CurveX over lib/Tower) is model-checked to be a group law on every "
